@@ -22,6 +22,8 @@ def run(model, rep, tier):
     rep.rule('C06.R6', 'the outcome of a layer run in a child reaches the parent unchanged in kind and number: wire '
              'agreement of the report (header roles, block order, as many entries as announced)')
     c07.r1_r2_wire(ctx, rep, R1='C06.R6', R2='C06.R6')
+    from . import robust
+    robust.asserts_have_no_effects(ctx, rep, 'C06.R20', 'C06')
     rep.units['cfg'] = ctx.cfg_stats
 
 
